@@ -143,7 +143,7 @@ def call_lib(fname, method, n, order, x, extra_args=(), extra_kwds=None, fun=Non
     """-> (derivative ndarray, error_estimate ndarray); raises Failed for any library exception."""
     import numdifftools as nd
     from numdifftools.finite_difference import FD_RULES
-    FD_RULES.clear()
+    fw.fresh_library_state()
     f = fun if fun is not None else FUNCS[fname]
     try:
         with warnings.catch_warnings():
